@@ -113,6 +113,8 @@ def classify : HOp → Act
     else if what = "ReplayPQDuplexFromCookie" then .cookie enforced
     else if what = "Encapsulate" then .emitKemCt
     else if what ∈ ["set certVerify = s.config.ClientVerify", "set certVerify = &c.config.Verify"] then .setVerify
+    -- any other assignment to the policy (or to the whole state that holds it) has no meaning here
+    else if what.startsWith "set certVerify = " then .unknown
     else .skip
   | .timeCheck enforced => .time enforced
   | .rekey => .skip
